@@ -1651,7 +1651,15 @@ type ProposalMessage struct {
 
 // ValidateBasic performs basic validation.
 func (m *ProposalMessage) ValidateBasic() error {
-	return m.Proposal.ValidateBasic()
+	if err := m.Proposal.ValidateBasic(); err != nil {
+		return err
+	}
+	// The part count sizes a bit array in the peer state and, for a signed
+	// proposal, the part set itself: bound it like NewValidBlockMessage does.
+	if total := m.Proposal.BlockID.PartSetHeader.Total; total > types.MaxBlockPartsCount {
+		return fmt.Errorf("proposal part set header total %d is too big, max: %d", total, types.MaxBlockPartsCount)
+	}
+	return nil
 }
 
 // String returns a string representation.
